@@ -25,14 +25,14 @@ CONSTANTS UnifyNeedsPointers,   \* deviation D12: unify(keep_chunked=FALSE) fail
           MemoByIdentity        \* deviation: something computed from a call's mask / values is remembered under the
                                 \* argument's identity and served again although the caller refilled the buffer
 
-Ops == {"reduce", "transform", "groups", "select", "cumroll", "apply", "ema", "size", "keycount", "copy", "classcall"}
+Ops == {"reduce", "reduce_pos", "transform", "groups", "select", "cumroll", "apply", "ema", "size", "keycount", "copy", "classcall"}
 Caches == {"ikey_count", "key_count", "sort_indexer", "groups", "argsort", "lengths"}
 
 (* The caller may pass the SAME mask / values buffer to several calls and rewrite it in place in between (the usual     *)
 (* way to loop over "everything but group k"): bufver counts the rewrites (environment action Refill).  The answer of a  *)
 (* call is a function of the buffer's content at call time, never of its identity: memo / stale model the deviation.     *)
 MaxRefills == 2
-MaskedOps == {"reduce", "size", "transform", "cumroll", "apply", "ema"}
+MaskedOps == {"reduce", "reduce_pos", "size", "transform", "cumroll", "apply", "ema"}
 VARIABLES rep, cache, broken, last, bufver, memo, stale
 (* broken: the object lacks fields (deviation CopyDropsFields) -- every later call fails *)
 (* last  : the operation that led here (history variable for trace export)              *)
@@ -60,6 +60,9 @@ Do(op) ==
      ELSE UNCHANGED <<memo, stale>>
   /\ CASE op = "reduce" ->
             /\ rep' = rep /\ cache' = cache \cup {"argsort", "ikey_count", "key_count", "lengths"} /\ UNCHANGED broken
+       [] op = "reduce_pos" ->   \* a reduction (or size) under an integer-position mask: the chunks are unified first
+            /\ CanUnifyFlat(rep)
+            /\ rep' = UnifyFlat(rep) /\ cache' = cache \cup {"argsort", "ikey_count", "key_count", "lengths"} /\ UNCHANGED broken
        [] op \in {"size", "keycount"} ->
             /\ rep' = rep /\ cache' = cache \cup {"ikey_count", "key_count", "lengths", "argsort"} /\ UNCHANGED broken
        [] op = "transform" ->
